@@ -308,15 +308,23 @@ def validate(ctx: Ctx, rule="R-C13-VALIDATE") -> None:
 def bucket_brokers(ctx: Ctx, rule="R-C13-FIELDS") -> None:
     """store under the id / read the same id back, in both bucket brokers; Redis expiry from timestamp + ttl."""
     im = "repid.connections.in_memory.bucket_broker.InMemoryBucketBroker"
+    init0 = ctx.func(f"{im}.__init__")
+    # the storage is recognised by role: the attribute __init__ initialises with an empty dict
+    stores = [dotted(t) for n in ast.walk(init0.node) if isinstance(n, (ast.Assign, ast.AnnAssign)) and n.value is not None
+              and ((isinstance(n.value, ast.Dict) and not n.value.keys) or (isinstance(n.value, ast.Call) and dotted(n.value.func) == "dict" and not n.value.args))
+              for t in (n.targets if isinstance(n, ast.Assign) else [n.target]) if (dotted(t) or "").startswith("self.")]
+    ctx.require(len(stores) == 1, f"{im}.__init__: the bucket storage dict not found (candidates {stores})")
+    S = stores[0]
     st = ctx.func(f"{im}.store_bucket")
     asg = [n for n in ast.walk(st.node) if isinstance(n, ast.Assign) and isinstance(n.targets[0], ast.Subscript)]
-    ok = len(asg) == 1 and dotted(asg[0].targets[0].slice) == "id_" and dotted(asg[0].value) == "payload" and "storage" in unparse(asg[0].targets[0].value)
+    ok = len(asg) == 1 and dotted(asg[0].targets[0].slice) == "id_" and C.utext(st, asg[0].value) == "payload" and C.utext(st, asg[0].targets[0].value) == S
     ctx.check(ok, rule, st, "in-memory store_bucket: storage[id_] = payload", "each store overwrites the bucket of that id", f"in-memory store_bucket does {unparse(asg[0]) if asg else 'nothing'}", instance="in-memory store")
     gb = ctx.func(f"{im}.get_bucket")
-    rets = [r for r in ast.walk(gb.node) if isinstance(r, ast.Return)]
-    ok = len(rets) == 1 and isinstance(rets[0].value, ast.Call) and isinstance(rets[0].value.func, ast.Attribute) and rets[0].value.func.attr == "get" and dotted(rets[0].value.args[0]) == "id_" \
-        and "storage" in unparse(rets[0].value.func.value)
-    ctx.check(ok, rule, gb, "in-memory get_bucket: storage.get(id_)", "reads the bucket of that id", f"in-memory get_bucket returns {unparse(rets[0].value) if rets else '?'}", instance="in-memory get")
+    rets = [r for r in C.own_returns(gb)]
+    rv = C.inline_locals(gb, rets[0].value, calls="all") if len(rets) == 1 and rets[0].value is not None else None
+    ok = isinstance(rv, ast.Call) and isinstance(rv.func, ast.Attribute) and rv.func.attr == "get" and rv.args and dotted(rv.args[0]) == "id_" \
+        and unparse(rv.func.value) == S and (len(rv.args) < 2 or C.is_const(rv.args[1], None)) and not rv.keywords
+    ctx.check(ok, rule, gb, "in-memory get_bucket: storage.get(id_)", "reads the bucket of that id", f"in-memory get_bucket returns {unparse(rv) if rv is not None else '?'}", instance="in-memory get")
     init = ctx.func(f"{im}.__init__")
     bc = [n for n in ast.walk(init.node) if isinstance(n, ast.Assign) and any(dotted(t) == "self.BUCKET_CLASS" for t in n.targets)]
     t = C.negate_aware_ifexp(bc[0].value) if bc else None
